@@ -118,7 +118,7 @@ def _loc(i, j=0):
 
 
 def gen_fiber(rng, uid, *, length=None, whole_km=False, allow_none_con=True, max_km=140, min_km=1.0,
-              per_freq_loss=False, lumped=False):
+              per_freq_loss=False, lumped=False, dispersion_variants=False):
     if length is None:
         r = rng.random()
         if r < 0.1:
@@ -148,9 +148,27 @@ def gen_fiber(rng, uid, *, length=None, whole_km=False, allow_none_con=True, max
         params['loss_coef'] = {'value': [round(base + 0.02, 4), round(base, 4), round(base + 0.01, 4),
                                          round(base + 0.035, 4)],
                                'frequency': [184e12, 191e12, 194e12, 198e12]}
+    if per_freq_loss and rng.random() < 0.4:
+        # tables are (frequency, value) pairs: the order in which the user lists them carries no meaning
+        t = params['loss_coef']
+        perm = rng.sample(range(4), 4) if rng.random() < 0.5 else [3, 2, 1, 0]
+        t['value'], t['frequency'] = [t['value'][i] for i in perm], [t['frequency'][i] for i in perm]
+    if dispersion_variants:
+        r = rng.random()
+        d = pick(rng, [1.67e-05, 5e-06, 2.2e-05])
+        if r < 0.25:
+            params['dispersion'], params['dispersion_slope'] = d, pick(rng, [58, 70, 45])
+        elif r < 0.45:
+            tab = {'value': [d * 1.1, d * 1.03, d * 0.98, d * 0.9], 'frequency': [184e12, 191e12, 194e12, 199e12]}
+            if rng.random() < 0.4:
+                perm = rng.sample(range(4), 4)
+                tab = {k: [v[i] for i in perm] for k, v in tab.items()}
+            params['dispersion_per_frequency'] = tab
     if lumped and length > 3:
         n = rng.randint(1, 2)
         pos = sorted(rnd(rng, 0.1 * length, 0.9 * length, 3) for _ in range(n))
+        if n == 2 and rng.random() < 0.2:
+            pos[1] = pos[0]             # two losses declared at the same place (splice + connector)
         params['lumped_losses'] = [{'position': p, 'loss': pick(rng, [0.5, 1.0, 1.5, 0.3])} for p in pos]
     return {'uid': uid, 'type': 'Fiber', 'type_variety': pick(rng, FIBER_TYPES), 'params': params,
             'metadata': _loc(0, 0)}
@@ -205,7 +223,7 @@ def ingress_degree_uid(roadm_uid, prev_uid, typ):
 def gen_topology(rng, *, n_sites=None, max_sites=5, max_spans=3, whole_km=False, user_amps=True, fused=True,
                  max_km=140, extra_links=None, roadm_params=None, per_degree=False, lumped=False,
                  per_freq_loss=False, long_fibers=False, amp_varieties=None, roadm_variety=None,
-                 no_booster_fused=False):
+                 no_booster_fused=False, dispersion_variants=False):
     """Random meshed topology in legacy JSON form. Both directions of each link are built independently
     (asymmetric lengths/losses). Returns (topology json, description)."""
     n = n_sites or rng.randint(2, max_sites)
@@ -247,7 +265,8 @@ def gen_topology(rng, *, n_sites=None, max_sites=5, max_spans=3, whole_km=False,
                 if long_fibers and rng.random() < 0.3:
                     length = rnd(rng, 160, 420, 3)
                 f = gen_fiber(rng, fuid, length=length, whole_km=whole_km, max_km=max_km, lumped=lumped
-                              and rng.random() < 0.3, per_freq_loss=per_freq_loss and rng.random() < 0.3)
+                              and rng.random() < 0.3, per_freq_loss=per_freq_loss and rng.random() < 0.3,
+                              dispersion_variants=dispersion_variants)
                 chain.append(f)
                 info['fibers'].append(fuid)
                 if j < k - 1:
